@@ -239,6 +239,101 @@ def panic_rule(ctx):
     return obs
 
 
+# ------------------------------------------------------------------ side conditions of reviewed panic sites
+
+SIDE_EXCEPTIONS = {
+    ("parse::tag::Element::parse", "wrapped_element"): "`wrapped_element` is None only for the kinds that the match on `for_list`/`if_condition` above maps to themselves; reviewed (refs/panic_sites.json)",
+    ("parse::tag::Element::parse", "attr.prefix_location"): "slot value refs are only created from `slot:` attributes, whose prefix location is always recorded; reviewed",
+}
+
+
+def _conjuncts(c):
+    if c.get("k") == "binary" and c.get("op") == "&&":
+        return _conjuncts(c["l"]) + _conjuncts(c["r"])
+    if c.get("k") == "paren":
+        return _conjuncts(c["e"])
+    return [c]
+
+
+def _disjuncts(c):
+    if c.get("k") == "binary" and c.get("op") == "||":
+        return _disjuncts(c["l"]) + _disjuncts(c["r"])
+    return [c]
+
+
+def side_conditions_rule(ctx):
+    """the guards that the reviewed table relies on are re-established mechanically on every run"""
+    ob = ctx.ob
+    obs = []
+    n_guarded = 0
+    for idx in (ctx.tc, ctx.sc):
+        for f in idx.fns:
+            if not f.body or any(m in ("js_bindings", "cbinding") for m in f.module):
+                continue
+            pm = None
+            for n in sir.walk(f.body):
+                if not (n.get("k") == "mcall" and n["m"] in ("unwrap", "expect")):
+                    continue
+                r = n["recv"]
+                while r.get("k") == "mcall" and r["m"] in ("as_ref", "as_mut", "clone", "as_deref", "as_deref_mut") and not r["args"]:
+                    r = r["recv"]
+                if r.get("k") not in ("path", "field"):
+                    continue
+                if r.get("k") == "path" and len(r["segs"]) != 1:
+                    continue
+                place = sir.expr_str(r).replace(" ", "")
+                if pm is None:
+                    pm = sir.parent_map(f.body)
+                how = None
+                cur = n
+                while id(cur) in pm and how is None:
+                    par = pm[id(cur)]
+                    if par.get("k") == "if":
+                        if par.get("then") is cur and any(sir.expr_str(c).replace(" ", "") == place + ".is_some()" for c in _conjuncts(par["cond"])):
+                            how = "inside `if .. %s.is_some()`" % place
+                        if par.get("else") is cur and any(sir.expr_str(c).replace(" ", "") == place + ".is_none()" for c in _disjuncts(par["cond"])):
+                            how = "in the else branch of `if %s.is_none()`" % place
+                    if par.get("k") == "block" and how is None:
+                        # `if P.is_none() { P = Some(..); }` directly before the statement that unwraps
+                        i = [k for k, st in enumerate(par["stmts"]) if st is cur]
+                        if i and i[0] > 0:
+                            prev = par["stmts"][i[0] - 1]
+                            e = prev.get("e") if prev.get("k") == "expr" else prev
+                            if e is not None and e.get("k") == "if" and sir.expr_str(e["cond"]).replace(" ", "") == place + ".is_none()" and \
+                                    any(x.get("k") == "assign" and sir.expr_str(x["l"]).replace(" ", "") == place and sir.expr_str(x["r"]).startswith("Some(") for x in sir.walk(e["then"])):
+                                how = "set to Some(..) by the statement before when it was None"
+                    cur = par
+                key = "C01.panic/side/unwrap/%s/%s" % (f.qual, place)
+                if how is None and (f.qual, place) in SIDE_EXCEPTIONS:
+                    obs.append(ob(key, True, ctx.where(f), "reviewed exception: " + SIDE_EXCEPTIONS[(f.qual, place)]))
+                    continue
+                if how:
+                    n_guarded += 1
+                obs.append(ob(key, how is not None, ctx.where(f), "`%s.unwrap()` is %s" % (place, how) if how else "`%s.unwrap()` is not dominated by a test that `%s` is Some" % (place, place),
+                              witness=None if how else "any input reaching this statement with `%s` unset panics" % place))
+    if n_guarded < 9:
+        obs.append(ob("C01.floor/guarded-unwraps", False, "both crates", "only %d guarded unwraps recognised (floor 9)" % n_guarded))
+    # ParseState::new: the truncation index is moved back to a character boundary before slicing
+    f = [g for g in ctx.tc.fns if g.base == "ParseState" and g.name == "new" and g.body]
+    if f:
+        g = f[0]
+        okb = False
+        d = "no truncation found"
+        for n in sir.walk(g.body):
+            if n.get("k") == "index" and n["idx"].get("k") == "range" and n["idx"].get("from") is None and n["idx"].get("to") is not None:
+                hi = n["idx"]["to"]
+                if hi.get("k") == "path" and len(hi["segs"]) == 1:
+                    v = hi["segs"][0]
+                    loops = [w for w in sir.walk(g.body) if w.get("k") == "while" and sir.expr_str(w["cond"]).replace(" ", "") == "!%s.is_char_boundary(%s)" % (sir.expr_str(n["base"]).replace(" ", ""), v)
+                             and any(x.get("k") == "binary" and x.get("op") == "-=" and sir.expr_str(x["l"]) == v for x in sir.walk(w["body"]))]
+                    okb = bool(loops)
+                    d = "`&%s[..%s]` after `while !is_char_boundary(%s) { %s -= 1 }`: %s" % (sir.expr_str(n["base"]), v, v, v, okb)
+                else:
+                    d = "the source is cut at `%s`, a fixed byte offset that may fall inside a character" % sir.expr_str(hi)
+        obs.append(ob("C01.panic/side/truncation-boundary", okb, ctx.where(g), d, witness=None if okb else "a 4 GiB source with a multi-byte character across the cut panics in str slicing"))
+    return obs
+
+
 def guard_flag_rule(ctx):
     """every wrapped concatenation the parser builds sets has_wrap_to_string, which keeps ToStringWithoutUndefined away from the
     expression printer's panic arm"""
@@ -277,6 +372,7 @@ def run(ctx):
     obs = progress_rule(ctx)
     obs += panic_rule(ctx)
     obs += guard_flag_rule(ctx)
+    obs += side_conditions_rule(ctx)
     from rules.c03 import literal_rules
     for x in literal_rules(ctx):
         x = dict(x)
